@@ -49,7 +49,8 @@ reg(Prop(
          'model. Concurrent histories (ASan): a case is one recorded history of 2-4 threads x 3-5 operations on one context (hot prefix, optional '
          'spin barrier per step); set/get/create are checked for linearizability by a Wing-Gong search with memoisation, lock-free level() reads '
          'of long-lived objects as regular-register reads, and the levels of all locations read after the threads finished must be explained by one '
-         'sequential order. TSan: a case is one round of 2-6 threads x 50-199 mixed operations (half of the rounds barrier-phased); every '
+         'sequential order; a quarter of these histories are creation storms (4-6 threads create an object for the same missing name at the same '
+         'barrier), and after everything was judged a set exactly on the location of every created object must reach all objects created for it. TSan: a case is one round of 2-6 threads x 50-199 mixed operations (half of the rounds barrier-phased); every '
          'ThreadSanitizer report with an fcppt frame is a violation (reports are deduplicated). distinct = history text / interleaving signature / round seed.',
     assumptions=COMMON_ASSUMPTIONS + [
         'operation A precedes B only if A.return + 2us < B.call (clock granularity can only remove constraints)',
